@@ -524,13 +524,13 @@ int main(int argc, char **argv)
 		run_case(i, seed);
 	mon_printf("STAT method=%s cases=%llu items=%llu work_runs=%llu completions=%llu continuations=%llu submitted_from_completion=%llu null_pool_items=%llu "
 		   "bursts=%llu pool_puts=%llu puts_while_work_running=%llu puts_from_completion=%llu worker_starts=%llu worker_stops=%llu max_concurrent=%llu "
-		   "iv_thread_children=%llu obligations=%llu discharged=%llu threads_created=%llu thread_create_failures_injected=%llu shim_quiescences=%llu time_advances=%llu violations=%d\n",
+		   "iv_thread_children=%llu obligations=%llu discharged=%llu threads_created=%llu thread_create_failures_injected=%llu priority_deferrals=%llu shim_quiescences=%llu time_advances=%llu violations=%d\n",
 		   g_method, (unsigned long long)S.cases, (unsigned long long)S.items, (unsigned long long)S.works, (unsigned long long)S.completions,
 		   (unsigned long long)S.continuations, (unsigned long long)S.from_completion, (unsigned long long)S.null_items,
 		   (unsigned long long)S.bursts, (unsigned long long)S.puts, (unsigned long long)S.puts_busy, (unsigned long long)S.puts_from_completion,
 		   (unsigned long long)S.starts, (unsigned long long)S.stops, (unsigned long long)S.max_concurrent, (unsigned long long)S.children,
 		   (unsigned long long)S.obligations, (unsigned long long)S.discharged, (unsigned long long)vt_stats.threads_created, (unsigned long long)(S.create_failures + create_failures),
-		   (unsigned long long)vt_stats.quiescences, (unsigned long long)vt_stats.time_advances, mon_viol_total);
+		   (unsigned long long)vt_stats.pct_deferrals, (unsigned long long)vt_stats.quiescences, (unsigned long long)vt_stats.time_advances, mon_viol_total);
 	mon_printf("DONE\n");
 	return 0;
 }
